@@ -92,11 +92,14 @@ type incarnation struct {
 	el     *elFactory
 	hist   *history
 
-	mu    sync.Mutex
-	done  bool
-	err   error
-	hasRV bool
-	panic string
+	mu     sync.Mutex
+	done   bool
+	err    error
+	hasRV  bool
+	panic  string
+	doneCh chan struct{} // closed when Run* has returned
+
+	NoFaults bool // timed mode: this incarnation is answered honestly throughout
 
 	Harvested bool
 	Abandoned bool // crashed: whatever it still does is ignored
@@ -126,6 +129,11 @@ type World struct {
 
 	incs []*incarnation
 	cur  *incarnation
+
+	// timed mode only (timed.go): every piece of world state is touched with mu held
+	mu       sync.Mutex
+	tocc     map[string]int
+	refusals int
 
 	seen     map[string]bool
 	open     map[string]*kernel.Parked
@@ -266,6 +274,9 @@ func (w *World) Init(s *kernel.Sim) {
 	p.SeqWeight = t.Range(1, 6)
 	p.Budget = t.Range(40, 320)
 	w.cancelsLeft, w.lostLeft, w.crashesLeft, w.restartsLeft, w.growthLeft = p.Cancels, p.Lost, p.Crashes, p.Restarts, p.Growth
+	if s.Timed {
+		w.timedProfile()
+	}
 
 	w.build()
 }
@@ -338,7 +349,9 @@ func (w *World) build() {
 	s.Logf("profile id=%s mode=%s cont=%v batch=%d fetch=%d submit=%d chan=%d start=%d delay=%v key=%s n0=%d growth=%d mix=%+v dest=%s stored=%v integrated=%d src=%s forkAt=%d faults=%s cancels=%d lost=%d crashes=%d restarts=%d budget=%d",
 		p.IDFunc, p.RunMode, p.Continuous, p.BatchSize, p.Fetchers, p.Submitters, p.ChannelSize, p.StartIndex, p.StartDelay, key.Name, p.N0, p.Growth, p.Mix,
 		p.DestKind, p.Stored, p.Integrated, p.SrcMode, p.ForkAt, fmtFaults(p.Fault), p.Cancels, p.Lost, p.Crashes, p.Restarts, p.Budget)
-	w.startIncarnation("initial")
+	if !s.Timed { // timed mode starts the controller in TimedRun, once TimedDecide is installed
+		w.startIncarnation("initial")
+	}
 }
 
 func fmtFaults(m map[string]int) string {
@@ -382,7 +395,7 @@ func (w *World) fork(at int) {
 // startIncarnation builds a fresh controller the way migrillian's main does and runs it.
 func (w *World) startIncarnation(why string) {
 	s := w.s
-	inc := &incarnation{ID: len(w.incs) + 1, hist: w.src.Hist, InSettle: !s.FaultsOn()}
+	inc := &incarnation{ID: len(w.incs) + 1, hist: w.src.Hist, InSettle: !s.FaultsOn(), doneCh: make(chan struct{})}
 	inc.ctx, inc.cancel = context.WithCancel(context.Background())
 	hc := &http.Client{Timeout: 10 * time.Second, Transport: &srcTransport{h: w.h, inc: inc.ID}}
 	ctClient, err := client.New(w.src.BaseURI, hc, jsonclient.Options{PublicKeyDER: w.src.Key.SPKI, UserAgent: "ct-go-migrillian/1.0"})
@@ -403,6 +416,7 @@ func (w *World) startIncarnation(why string) {
 	s.Go(func() {
 		var rerr error
 		hasRV := true
+		defer close(inc.doneCh)
 		defer func() {
 			if r := recover(); r != nil {
 				inc.mu.Lock()
@@ -674,6 +688,10 @@ func (w *World) answerSrc(inc *incarnation, c *srcCall, d kernel.Decision) {
 func (w *World) answerDst(inc *incarnation, c *dstCall, d kernel.Decision) {
 	s := w.s
 	ps := inc.Pass
+	if ps == nil {
+		ps = &pass{GateWhy: "no-root"}
+		inc.Pass = ps
+	}
 	now := time.Now().UnixNano()
 	tag := fmt.Sprintf("c%d %s", c.Inc, c.RPC)
 	if c.Add != nil && len(c.Add.Leaves) > 0 {
